@@ -2,11 +2,16 @@ package main
 
 import (
 	"context"
+	"crypto/sha256"
+	"encoding/hex"
 	"fmt"
+	"io"
+	"net/http/httptest"
 	"sort"
 	"strings"
 
 	"github.com/jdillenkofer/pithos/internal/storage"
+	"github.com/jdillenkofer/pithos/internal/storage/middlewares/objectcache"
 	"github.com/jdillenkofer/pithos/internal/storage/migrator"
 	"github.com/jdillenkofer/pithos/internal/verif/vkit"
 	"github.com/jdillenkofer/pithos/internal/verif/vmodel"
@@ -32,6 +37,9 @@ type c37Case struct {
 	Buckets int    `json:"buckets"`
 	// NonDateExpires adds one object whose Expires header is not an HTTP date.
 	NonDateExpires bool `json:"non_date_expires,omitempty"`
+	// BigSparse adds objects above the uploader's multipart threshold that carry
+	// exactly one attribute (non-date Expires / tags / nothing at all).
+	BigSparse bool `json:"big_sparse,omitempty"`
 }
 
 type c37Witness struct {
@@ -72,6 +80,18 @@ func planC37(i int, thorough bool, rng *vkit.Rand) c37Case {
 		if i >= 6 {
 			c.Steps = 30 + rng.Intn(40)
 		}
+		c.BigSparse = i == 0
+		// other kinds of source storage (see openSource)
+		switch i {
+		case 6:
+			c.Src, c.Dst, c.Mode, c.Pos, c.Collide, c.Big, c.BigSparse = "s3c:sql", "fs", "fresh", "", false, []int{5*mib + 1}, true
+		case 7:
+			c.Src, c.Dst, c.Mode, c.Pos, c.Collide, c.Big = "s3c:fs", "sql", "precreated", "", false, nil
+		case 8:
+			c.Src, c.Dst, c.Mode, c.Pos, c.Collide, c.Big = "cache:sql", "zstd>fs", "fresh", "", false, nil
+		case 9:
+			c.Src, c.Dst, c.Mode, c.Pos, c.Collide, c.Big = "zstd>fs", "sql", "precreated", "", false, []int{5*mib + 1}
+		}
 		return c
 	}
 	modes := []struct {
@@ -79,11 +99,10 @@ func planC37(i int, thorough bool, rng *vkit.Rand) c37Case {
 	}{{"fresh", ""}, {"precreated", ""}, {"nonempty", "first"}, {"nonempty", "middle"}, {"nonempty", "last"}}
 	m := modes[i%5]
 	c.Mode, c.Pos = m.mode, m.pos
-	if (i/5)%2 == 0 {
-		c.Src, c.Dst = "sql", "fs"
-	} else {
-		c.Src, c.Dst = "fs", "sql"
-	}
+	pairs := [][2]string{{"sql", "fs"}, {"fs", "sql"}, {"s3c:sql", "fs"}, {"zstd>fs", "sql"}, {"cache:fs", "sql"}, {"s3c:fs", "zstd>fs"}}
+	pr := pairs[(i/5)%len(pairs)]
+	c.Src, c.Dst = pr[0], pr[1]
+	c.BigSparse = i%8 == 0
 	c.Collide = rng.Bool()
 	c.Steps = 30 + rng.Intn(70)
 	c.Buckets = 3 + rng.Intn(2)
@@ -108,11 +127,27 @@ func planC37(i int, thorough bool, rng *vkit.Rand) c37Case {
 	return c
 }
 
-func c37Profile(buckets []string) vmodel.Profile {
+// c37KeysFor: keys with "." / ".." path segments cannot be addressed through
+// pithos' HTTP layer (net/http's ServeMux answers them with a redirect to the
+// cleaned path), so a source that is read over HTTP does not hold them.
+func c37KeysFor(c c37Case) []string {
+	if !strings.HasPrefix(c.Src, "s3c:") {
+		return c37Keys
+	}
+	var l []string
+	for _, k := range c37Keys {
+		if !strings.Contains(k, "/./") && !strings.Contains(k, "/../") {
+			l = append(l, k)
+		}
+	}
+	return l
+}
+
+func c37Profile(buckets []string, keys []string) vmodel.Profile {
 	p := vmodel.MetaProfile()
 	p.Name = "c37-source"
 	p.Buckets = buckets
-	p.Keys = c37Keys
+	p.Keys = keys
 	p.Weights = map[vmodel.OpKind]int{
 		vmodel.OpCreateBucket: 5, vmodel.OpVersioning: 2, vmodel.OpPut: 28, vmodel.OpCopy: 12, vmodel.OpAppend: 6,
 		vmodel.OpMpuCreate: 5, vmodel.OpMpuPart: 7, vmodel.OpMpuComplete: 5, vmodel.OpPutTags: 4, vmodel.OpDelTags: 1,
@@ -146,6 +181,190 @@ func fullMeta(rng *vkit.Rand, n int) *storage.ObjectMetadata {
 	}
 }
 
+// ---------------------------------------------------------------------------
+// kinds of source storage
+//
+//	"<spec>"       a metadata-part storage over the given part-store stack
+//	"s3c:<spec>"   an S3ClientStorage -> HTTP -> in-process pithos server -> metadata-part storage;
+//	               the state is written directly into the backing storage, the migrator reads through the client
+//	"cache:<spec>" the object-cache storage middleware over a metadata-part storage; the state is
+//	               written through the middleware (cache filled on write), the migrator reads through it
+
+type c37Source struct {
+	kind  string          // plain | s3c | cache
+	env   *vkit.Env       //
+	build storage.Storage // where the source state is written
+	api   storage.Storage // what MigrateStorage reads
+	inner storage.Storage // the metadata-part storage at the bottom
+	srv   *httptest.Server
+}
+
+func (s *c37Source) close(ctx context.Context) {
+	if s.kind == "s3c" && s.api != nil {
+		_ = s.api.Stop(ctx)
+	}
+	if s.srv != nil {
+		s.srv.Close()
+	}
+	if s.inner != nil {
+		_ = s.inner.Stop(ctx)
+	}
+	if s.env != nil {
+		s.env.Close()
+	}
+}
+
+func openSource(ctx context.Context, r *vkit.Run, name, spec string) (*c37Source, error) {
+	src := &c37Source{kind: "plain"}
+	partSpec := spec
+	if i := strings.Index(spec, ":"); i > 0 {
+		src.kind, partSpec = spec[:i], spec[i+1:]
+	}
+	var err error
+	if src.env, src.inner, err = openStore(r, name, partSpec); err != nil {
+		return nil, err
+	}
+	src.build, src.api = src.inner, src.inner
+	switch src.kind {
+	case "plain":
+	case "s3c":
+		if src.api, src.srv, err = newS3ClientOver(ctx, src.inner); err != nil {
+			src.close(ctx)
+			return nil, err
+		}
+	case "cache":
+		c, err := src.env.NewCache("cache")
+		if err != nil {
+			src.close(ctx)
+			return nil, err
+		}
+		mw, err := objectcache.NewStorageMiddleware(src.inner, c, objectcache.Options{MaxObjectSizeBytes: 1 << 20})
+		if err != nil {
+			src.close(ctx)
+			return nil, err
+		}
+		src.build, src.api = mw, mw
+	default:
+		src.close(ctx)
+		return nil, fmt.Errorf("unknown source kind %q", src.kind)
+	}
+	return src, nil
+}
+
+// currentView reads what a user of the storage API sees of the current objects
+// of every bucket: ListBuckets, ListObjects (all pages), and per key HeadObject
+// (size, ETag, content type, metadata, class), GetObjectTagging (tags) and
+// GetObject (content). It is the oracle for sources whose listing of versions /
+// uploads is not the business of the migrator (S3 client, middlewares).
+func currentView(ctx context.Context, s storage.Storage) *vmodel.Snap {
+	sn := &vmodel.Snap{}
+	buckets, err := s.ListBuckets(ctx)
+	if err != nil {
+		sn.Err = "ListBuckets: " + err.Error()
+		return sn
+	}
+	sort.Slice(buckets, func(i, j int) bool { return buckets[i].Name.String() < buckets[j].Name.String() })
+	for _, b := range buckets {
+		bs := vmodel.BucketSnap{Name: b.Name.String()}
+		objs, err := storage.ListAllObjectsOfBucket(ctx, s, b.Name)
+		if err != nil {
+			sn.Err = "ListObjects: " + err.Error()
+			return sn
+		}
+		for _, lo := range objs {
+			vs := vmodel.VersionSnap{Key: lo.Key.String(), IsLatest: true, Size: lo.Size, ETag: lo.ETag, Class: classOf(lo.StorageClass)}
+			o, err := s.HeadObject(ctx, b.Name, lo.Key, nil)
+			if err != nil {
+				vs.ReadErr = "head: " + err.Error()
+			} else {
+				vs.ContentType = vkit.Deref(o.ContentType)
+				vs.Meta = renderMeta(o.Metadata)
+				vs.Class = classOf(o.StorageClass)
+				if o.Size != lo.Size {
+					vs.ReadErr = fmt.Sprintf("head/list mismatch: head size=%d", o.Size)
+				}
+			}
+			tags, err := s.GetObjectTagging(ctx, b.Name, lo.Key, nil)
+			if err != nil {
+				vs.ReadErr += " get-tagging: " + err.Error()
+			} else {
+				vs.Tags = tagString(tags)
+			}
+			_, rds, err := s.GetObject(ctx, b.Name, lo.Key, nil, nil)
+			h := sha256.New()
+			if err != nil {
+				if !(lo.Size == 0 && strictKind(err) == "InvalidRange") {
+					vs.ReadErr += " get: " + err.Error()
+				}
+			} else {
+				var n int64
+				for _, rd := range rds {
+					k, rerr := io.Copy(h, rd)
+					n += k
+					if rerr != nil {
+						vs.ReadErr += " read: " + rerr.Error()
+					}
+					_ = rd.Close()
+				}
+				if n != lo.Size {
+					vs.ReadErr += fmt.Sprintf(" body %d bytes != size %d", n, lo.Size)
+				}
+			}
+			vs.ContentHash = hex.EncodeToString(h.Sum(nil)[:10])
+			bs.Versions = append(bs.Versions, vs)
+			bs.Listed = append(bs.Listed, fmt.Sprintf("%s|%d|%s|%s", lo.Key.String(), lo.Size, lo.ETag, classOf(lo.StorageClass)))
+		}
+		sn.Buckets = append(sn.Buckets, bs)
+	}
+	return sn
+}
+
+// sparseShapes are objects that carry exactly one attribute (or one attribute
+// next to an Expires value that is not an HTTP date): the migrator reassembles
+// the metadata from the SDK upload input, so every field has to survive alone.
+type sparseShape struct {
+	name  string
+	ct    *string
+	meta  *storage.ObjectMetadata
+	tags  map[string]string
+	class *string
+}
+
+func sparseShapes() []sparseShape {
+	p := func(s string) *string { return &s }
+	om := func(f func(m *storage.ObjectMetadata)) *storage.ObjectMetadata {
+		m := &storage.ObjectMetadata{}
+		f(m)
+		return m
+	}
+	exp := func(v string) *storage.ObjectMetadata {
+		return om(func(m *storage.ObjectMetadata) { m.Expires = p(v) })
+	}
+	return []sparseShape{
+		{name: "cache-control-only", meta: om(func(m *storage.ObjectMetadata) { m.CacheControl = p("no-store") })},
+		{name: "content-disposition-only", meta: om(func(m *storage.ObjectMetadata) { m.ContentDisposition = p("inline") })},
+		{name: "content-encoding-only", meta: om(func(m *storage.ObjectMetadata) { m.ContentEncoding = p("gzip") })},
+		{name: "content-language-only", meta: om(func(m *storage.ObjectMetadata) { m.ContentLanguage = p("en-US, de") })},
+		{name: "website-redirect-only", meta: om(func(m *storage.ObjectMetadata) { m.WebsiteRedirectLocation = p("https://example.org/x?y=z") })},
+		{name: "expires-http-date-only", meta: exp("Thu, 01 Dec 2099 16:00:00 GMT")},
+		{name: "expires-zero-only", meta: exp("0")},
+		{name: "expires-minus-one-only", meta: exp("-1")},
+		{name: "expires-word-only", meta: exp("never")},
+		{name: "expires-rfc3339-only", meta: exp("2099-12-01T16:00:00Z")},
+		{name: "expires-zero+content-type", ct: p("text/html"), meta: exp("0")},
+		{name: "expires-zero+tags", meta: exp("0"), tags: map[string]string{"with": "non-date expires"}},
+		{name: "expires-zero+class", meta: exp("0"), class: p("GLACIER")},
+		{name: "expires-zero+user-metadata", meta: om(func(m *storage.ObjectMetadata) { m.Expires = p("0"); m.UserMetadata = map[string]string{"a": "b"} })},
+		{name: "expires-zero+content-language", meta: om(func(m *storage.ObjectMetadata) { m.Expires = p("0"); m.ContentLanguage = p("nl") })},
+		{name: "one-user-metadata-entry-only", meta: om(func(m *storage.ObjectMetadata) { m.UserMetadata = map[string]string{"single": "1"} })},
+		{name: "empty-metadata-struct", meta: &storage.ObjectMetadata{}},
+		{name: "content-type-only", ct: p("image/png")},
+		{name: "class-only", class: p("DEEP_ARCHIVE")},
+		{name: "one-tag-only", tags: map[string]string{"t": "v"}},
+		{name: "ten-tags-only", tags: map[string]string{"t0": "0", "t1": "1", "t2": "2", "t3": "3", "t4": "4", "t5": "5", "t6": "6", "t7": "7", "t8": "8", "t9 +=": "9 +=&"}},
+	}
+}
+
 var specialTags = map[string]string{"k e+y&=": "v a/l=ue&+%", "uni-ü": "日本", "plain": ""}
 
 // buildSource fills the source storage: a generated history followed by the
@@ -153,7 +372,7 @@ var specialTags = map[string]string{"k e+y&=": "v a/l=ue&+%", "uni-ü": "日本"
 func buildSource(ctx context.Context, r *vkit.Run, rng *vkit.Rand, s storage.Storage, c c37Case) ([]string, error) {
 	buckets := append([]string{}, c37BucketPool[:c.Buckets]...)
 	h := vmodel.RunHistory(ctx, vmodel.HistoryConfig{
-		Storage: s, Rand: rng.Fork("history"), Profile: c37Profile(buckets), Steps: c.Steps,
+		Storage: s, Rand: rng.Fork("history"), Profile: c37Profile(buckets, c37KeysFor(c)), Steps: c.Steps,
 		InScope: func(vmodel.Divergence) bool { return false },
 	})
 	for k, n := range h.OpsByKind {
@@ -201,7 +420,7 @@ func buildSource(ctx context.Context, r *vkit.Run, rng *vkit.Rand, s storage.Sto
 		}
 	}
 	// every special key holds an object somewhere
-	for ki, k := range c37Keys {
+	for ki, k := range c37KeysFor(c) {
 		bn := buckets[(ki+c.Index)%len(buckets)]
 		var meta *storage.ObjectMetadata
 		if ki%2 == 0 {
@@ -244,6 +463,28 @@ func buildSource(ctx context.Context, r *vkit.Run, rng *vkit.Rand, s storage.Sto
 		}
 		if err := mustExec(ctx, s, &vmodel.Op{Kind: vmodel.OpAppend, Bucket: bn, Key: "shape/appended", Body: rng.Bytes(900)}); err != nil {
 			return nil, err
+		}
+	}
+	// sparse attribute combinations (one bucket per case, rotating)
+	{
+		bn := buckets[(c.Index+1)%len(buckets)]
+		for _, sh := range sparseShapes() {
+			if err := put(bn, "sparse/"+sh.name, rng.Bytes(1+rng.Intn(400)), sh.ct, sh.meta, sh.tags, sh.class, "sparse:"+sh.name); err != nil {
+				return nil, err
+			}
+		}
+		if c.BigSparse {
+			// the same above the uploader's multipart threshold (CreateMultipartUpload path of the adapter)
+			bigs := []sparseShape{
+				{name: "expires-word-only", meta: &storage.ObjectMetadata{Expires: vkit.Ptr("never")}},
+				{name: "one-tag-only", tags: map[string]string{"big": "tagged"}},
+				{name: "bare"},
+			}
+			for _, sh := range bigs {
+				if err := put(bn, "sparse-big/"+sh.name, rng.Bytes(5*mib+1+rng.Intn(1000)), sh.ct, sh.meta, sh.tags, sh.class, "sparse-big:"+sh.name); err != nil {
+					return nil, err
+				}
+			}
 		}
 	}
 	if c.NonDateExpires {
@@ -308,12 +549,13 @@ func accountSource(r *vkit.Run, src *vmodel.Snap) (objects int) {
 func runC37Case(ctx context.Context, r *vkit.Run, base *vkit.Rand, c c37Case) {
 	rng := base.Fork(fmt.Sprintf("C37/case/%d", c.Index))
 	tag := fmt.Sprintf("c37-%d", c.Index)
-	srcEnv, src, err := openStore(r, tag+"-src", c.Src)
+	source, err := openSource(ctx, r, tag+"-src", c.Src)
 	if err != nil {
 		r.Inconclusive("cannot build source storage: " + err.Error())
 		return
 	}
-	defer func() { _ = src.Stop(ctx); srcEnv.Close() }()
+	defer source.close(ctx)
+	src := source.api
 	dstEnv, dst, err := openStore(r, tag+"-dst", c.Dst)
 	if err != nil {
 		r.Inconclusive("cannot build destination storage: " + err.Error())
@@ -321,16 +563,34 @@ func runC37Case(ctx context.Context, r *vkit.Run, base *vkit.Rand, c c37Case) {
 	}
 	defer func() { _ = dst.Stop(ctx); dstEnv.Close() }()
 
-	order, err := buildSource(ctx, r, rng, src, c)
+	order, err := buildSource(ctx, r, rng, source.build, c)
 	if err != nil {
 		r.Inconclusive(fmt.Sprintf("case %d: cannot build source state: %v", c.Index, err))
 		return
 	}
-	srcSnap := vmodel.Snapshot(ctx, src, vmodel.SnapOptions{})
+	// complete state of the metadata-part storage at the bottom (accounting; oracle for plain sources)
+	srcSnap := vmodel.Snapshot(ctx, source.inner, vmodel.SnapOptions{})
 	if srcSnap.Err != "" || len(srcSnap.ReadErrors()) > 0 {
 		r.Inconclusive(fmt.Sprintf("case %d: source state not readable: %s %v", c.Index, srcSnap.Err, firstN(srcSnap.ReadErrors(), 3)))
 		return
 	}
+	// what the migrator is given: the current objects as the source storage API shows them
+	srcView := srcSnap
+	if source.kind != "plain" {
+		srcView = currentView(ctx, src)
+		if srcView.Err != "" || len(srcView.ReadErrors()) > 0 {
+			r.Inconclusive(fmt.Sprintf("case %d: source not readable through its %s API: %s %v", c.Index, source.kind, srcView.Err, firstN(srcView.ReadErrors(), 3)))
+			return
+		}
+		// where the view differs from the storage below, that is the business of the
+		// S3 client / middleware checks (C38, C20); the migrator is judged against the view
+		vd, vn, _ := compareCurrent(srcSnap, srcView)
+		r.Count("source_view_objects_compared_with_backing_storage", int64(vn))
+		for _, d := range vd {
+			r.Count("source_view_differs_from_backing_storage:"+source.kind+":"+d.Field+"(not a migrator matter)", 1)
+		}
+	}
+	r.Count("source_kind:"+source.kind, 1)
 	nobj := accountSource(r, srcSnap)
 	srcNames := map[string]bool{}
 	for _, n := range order {
@@ -494,7 +754,7 @@ func runC37Case(ctx context.Context, r *vkit.Run, base *vkit.Rand, c c37Case) {
 		return
 	}
 	dstR := restrictTo(after, srcNames)
-	diffs, compared, etagDiff := compareCurrent(srcSnap, dstR)
+	diffs, compared, etagDiff := compareCurrent(srcView, dstR)
 	r.Count("objects_compared", int64(compared))
 	r.Count("fields_compared", int64(compared*9))
 	r.Count("objects_with_different_etag_after_migration(not stated)", int64(etagDiff))
@@ -522,7 +782,9 @@ func runC37Case(ctx context.Context, r *vkit.Run, base *vkit.Rand, c c37Case) {
 	}
 	// second opinion: the shared snapshot differ on current objects (ETag and the
 	// fields already reported above excluded)
-	if len(diffs) == 0 {
+	if source.kind != "plain" {
+		// the view holds current objects only; vmodel.Diff compares whole snapshots
+	} else if len(diffs) == 0 {
 		if d := vmodel.Diff(stripETags(srcSnap), stripETags(dstR), vmodel.DiffOptions{CurrentOnly: true, IgnoreIDs: true}); d != "" {
 			ww := w
 			ww.Diff = d
@@ -550,8 +812,8 @@ func runC37Case(ctx context.Context, r *vkit.Run, base *vkit.Rand, c c37Case) {
 
 func runC37(tier, replay string) {
 	r := vkit.Begin("C37", "exploration", tier)
-	r.SetRule("case = one MigrateStorage(src,dst) between two fresh metadata-part storages (sql->fs and fs->sql part stores, separate SQLite files). Source = vmodel-generated history (puts/copies/appends/multipart/tagging/transitions with content type, six system headers, user metadata, tags, all storage classes; versioned buckets, delete markers, non-current versions, pending uploads) plus fixed shapes per bucket (empty object, all-metadata object with special-character tags, bare object, every special-character key, multipart-created and appended objects, objects at/above the uploader's 5 MiB multipart threshold, optionally a non-date Expires). Destination = fresh | some buckets pre-created empty (some versioned) | one bucket non-empty (first/middle/last in listing order, colliding or distinct key). distinct = distinct (direction, destination mode, position, collision, object count, big-object count, bucket count)")
-	r.Assume("oracle = API-visible snapshot of the source (vmodel.Snapshot: Head+Get+GetObjectTagging of every version) compared field by field with the destination's; ETag and LastModified of migrated objects are not stated by the property and only counted")
+	r.SetRule("case = one MigrateStorage(src,dst) into a fresh metadata-part storage (sql, fs, zstd>fs part stores, separate SQLite files) from a source of one of several storage kinds: a metadata-part storage (sql, fs, zstd>fs), an S3ClientStorage in front of an in-process pithos HTTP server (state written into the backing storage, migrator reads through the client) or the object-cache middleware over a metadata-part storage. Source = vmodel-generated history (puts/copies/appends/multipart/tagging/transitions with content type, six system headers, user metadata, tags, all storage classes; versioned buckets, delete markers, non-current versions, pending uploads) plus fixed shapes per bucket (empty object, all-metadata object with special-character tags, bare object, every special-character key, multipart-created and appended objects, objects at/above the uploader's 5 MiB multipart threshold, optionally a non-date Expires) plus 21 sparse objects carrying exactly one attribute each (each system header alone, HTTP-date and four non-date Expires values alone, non-date Expires next to exactly one other attribute, content type / class / one tag / ten tags / one user-metadata entry alone, empty metadata struct) and in some cases the same above the multipart threshold (non-date Expires only, one tag only, bare). Destination = fresh | some buckets pre-created empty (some versioned) | one bucket non-empty (first/middle/last in listing order, colliding or distinct key). distinct = distinct (source kind and direction, destination mode, position, collision, object count, big-object count, bucket count)")
+	r.Assume("oracle = API-visible snapshot of the source (vmodel.Snapshot: Head+Get+GetObjectTagging of every version; for S3-client / middleware sources: ListObjects + Head + GetObjectTagging + Get of every current object THROUGH that source, differences between this view and the storage below are counted and left to C38/C20) compared field by field with the destination's; ETag and LastModified of migrated objects are not stated by the property and only counted")
 	r.Assume("'non-empty destination bucket' = a bucket holding at least one current object (buckets holding only delete markers or pending uploads are not generated)")
 	ctx := context.Background()
 	only := -1
@@ -562,7 +824,7 @@ func runC37(tier, replay string) {
 		only = w.Case.Index
 	}
 	base := r.Rand()
-	n := r.N(6, 120)
+	n := r.N(10, 120)
 	for i := 0; i < n; i++ {
 		if only >= 0 && i != only {
 			continue
